@@ -23,9 +23,14 @@ import (
 	"strconv"
 	"strings"
 
+	df "github.com/awslabs/ar-go-tools/analysis/dataflow"
+	"github.com/awslabs/ar-go-tools/analysis/taint"
+	"golang.org/x/tools/go/ssa"
+
 	"verif/harness/lib"
 	"verif/harness/mugo"
 	"verif/harness/optrun"
+	"verif/harness/taintrun"
 )
 
 const genConfig = `options:
@@ -290,6 +295,141 @@ func explore() {
 	}
 }
 
+// ---- proved domain (Props/C06Real.lean): per source, does `taint_deterministic_of_flags` apply?
+
+const domainFuel = 400000
+
+// instrPos renders an instruction exactly like optrun's canonical flows ("file:line:col(fn)").
+func instrPos(prog *ssa.Program, ins ssa.Instruction) string {
+	if ins == nil {
+		return "?"
+	}
+	p := prog.Fset.Position(ins.Pos())
+	fn := ""
+	if ins.Parent() != nil {
+		fn = ins.Parent().Name()
+	}
+	return fmt.Sprintf("%s:%d:%d(%s)", filepath.Base(p.Filename), p.Line, p.Column, fn)
+}
+
+// flowsBySource splits the "flows:" section of a canonical result into source position -> sorted sink list.
+func flowsBySource(canon string) map[string]string {
+	m := map[string][]string{}
+	if i := strings.Index(canon, "flows:"); i >= 0 {
+		rest := canon[i+len("flows:"):]
+		if k := strings.Index(rest, "|escapes:"); k >= 0 {
+			rest = rest[:k]
+		}
+		for _, f := range strings.Split(rest, ";") {
+			if k := strings.Index(f, "->"); k >= 0 {
+				m[f[:k]] = append(m[f[:k]], f[k+2:])
+			}
+		}
+	}
+	out := map[string]string{}
+	for k, v := range m {
+		sort.Strings(v)
+		out[k] = strings.Join(v, ",")
+	}
+	return out
+}
+
+// provedDomain runs the real analysis once more keeping its state, dumps the REAL linked graph
+// (taintrun.DumpGraph), and has oracle_c01 evaluate `Argot.C06Real.inProvedDomain` for every entry
+// point (record c06run). Result: source position -> every entry of that source is inside the domain;
+// the canonical result of that extra run (it takes part in the comparison); "" or why it could not run.
+func provedDomain(rep *lib.Report, p *optrun.Program, name string) (map[string]bool, string, string) {
+	optrun.KeepState = true
+	res := p.Taint(optrun.Opts{})
+	optrun.KeepState = false
+	if !res.OK() || res.State == nil {
+		return nil, "", "the extra run kept no analyzer state"
+	}
+	canon := res.Canon()
+	st := res.State
+	res.State = nil
+	d, err := taintrun.DumpGraph(&taintrun.Result{Analysis: taint.AnalysisResult{State: st}})
+	if err != nil {
+		return nil, canon, "dump: " + err.Error()
+	}
+	lines := append([]string{"reset"}, d.Lines...)
+	for i, e := range d.Entries {
+		tr := "-"
+		if len(e.Trace) > 0 {
+			var xs []string
+			for _, x := range e.Trace {
+				xs = append(xs, strconv.Itoa(x))
+			}
+			tr = strings.Join(xs, ",")
+		}
+		lines = append(lines, fmt.Sprintf("c06run %d %d %d %s", i, e.Node, domainFuel, tr))
+	}
+	in := strings.Join(lines, "\n") + "\n"
+	out, err := lib.RunOracle("oracle_c01", []byte(in))
+	if err != nil || len(out) != len(d.Entries) {
+		rep.Fail("oracle:"+name, fmt.Sprintf("oracle_c01 (c06run) failed on the dumped graph of %s: %v (%d answers for %d entries)", name, err, len(out), len(d.Entries)), []byte(in), true)
+		return nil, canon, "oracle"
+	}
+	dom := map[string]bool{}
+	model := map[string]map[string]bool{}
+	for i, l := range out {
+		f := strings.Fields(l)
+		if len(f) < 3 || f[0] != "c06" || f[1] != strconv.Itoa(i) {
+			rep.Fail("oracle:"+name, "oracle_c01 rejected a c06run record of "+name+": "+l, []byte(in), true)
+			return nil, canon, "oracle"
+		}
+		kv := map[string]string{}
+		for _, x := range f[2:] {
+			if k := strings.IndexByte(x, '='); k > 0 {
+				kv[x[:k]] = x[k+1:]
+			}
+		}
+		if kv["bad"] != "0" {
+			rep.Fail("oracle:"+name, "oracle_c01 could not parse the dumped graph of "+name+": "+l, []byte(in), true)
+			return nil, canon, "oracle"
+		}
+		sp := instrPos(p.Prog, d.Entries[i].Instr)
+		inD := kv["domain"] == "1"
+		if old, ok := dom[sp]; ok {
+			dom[sp] = old && inD
+		} else {
+			dom[sp] = inD
+		}
+		rep.Count(fmt.Sprintf("entry:term=%s,ebe=%s,keydet=%s", kv["term"], kv["ebe"], kv["keydet"]))
+		if model[sp] == nil {
+			model[sp] = map[string]bool{}
+		}
+		if kv["flows"] != "-" && kv["flows"] != "" {
+			for _, x := range strings.Split(kv["flows"], ",") {
+				if n, e := strconv.Atoi(x); e == nil && n < len(d.Nodes) {
+					model[sp][instrPos(p.Prog, df.Instr(d.Nodes[n]))] = true
+				}
+			}
+		}
+	}
+	// inside the domain the theorem says: every order reports the model's set (flows_eq_model) — counted
+	real := flowsBySource(canon)
+	for sp, inD := range dom {
+		if !inD {
+			continue
+		}
+		var ms []string
+		for x := range model[sp] {
+			ms = append(ms, x)
+		}
+		sort.Strings(ms)
+		if strings.Join(ms, ",") == real[sp] {
+			rep.Count("proved-domain:real==model")
+		} else {
+			rep.Count("proved-domain:real!=model")
+			if len(rep.Notes) < 12 {
+				rep.Notes = append(rep.Notes, fmt.Sprintf("%s source %s inside the proved domain: real sinks [%s], model sinks [%s]", name, sp, real[sp], strings.Join(ms, ",")))
+			}
+		}
+	}
+	return dom, canon, ""
+}
+
 func main() {
 	if len(os.Args) >= 2 && os.Args[1] == "depthsearch" {
 		depthSearch()
@@ -360,6 +500,7 @@ func main() {
 	_, tsErr := exec.LookPath("taskset")
 	nproc := runtime.NumCPU()
 
+	sourcesIn, sourcesOut := 0, 0
 	check := func(j job, rIn int, cross bool) {
 		p, err := loadSpec(j.spec)
 		if err != nil {
@@ -411,6 +552,32 @@ func main() {
 				}
 			}
 		}
+		// proved domain of Props/C06Real.lean, evaluated on the dumped REAL graph (generated / corpus programs)
+		var dom map[string]bool
+		if j.kind == "taint" && strings.HasPrefix(j.spec, "dir:") {
+			d, c, why := provedDomain(rep, p, j.name)
+			if c != "" {
+				h := hash(c)
+				canon[h] = c
+				if origin[h] == "" {
+					origin[h] = "in-process (the extra run whose graph was dumped)"
+				}
+			}
+			if why != "" {
+				rep.Count("proved-domain:not-evaluated")
+				rep.Notes = append(rep.Notes, j.name+": proved domain not evaluated: "+why)
+			} else {
+				dom = d
+				rep.Count("proved-domain:programs")
+				for _, in := range d {
+					if in {
+						sourcesIn++
+					} else {
+						sourcesOut++
+					}
+				}
+			}
+		}
 		key := j.kind + "/" + j.name
 		nonEmpty := false
 		for _, c := range canon {
@@ -437,6 +604,41 @@ func main() {
 				content += "--- main.go ---\n" + string(src)
 			}
 			fkey := "nondet-" + key
+			what := ""
+			if dom != nil {
+				// which sources differ between runs, and does the determinism theorem cover them?
+				var inDiff, outDiff []string
+				srcs := map[string]bool{}
+				for _, h := range hs {
+					for sp := range flowsBySource(canon[h]) {
+						srcs[sp] = true
+					}
+				}
+				for sp := range srcs {
+					same := true
+					for _, h := range hs {
+						if flowsBySource(canon[h])[sp] != flowsBySource(a)[sp] {
+							same = false
+						}
+					}
+					if !same {
+						if dom[sp] {
+							inDiff = append(inDiff, sp)
+						} else {
+							outDiff = append(outDiff, sp)
+						}
+					}
+				}
+				sort.Strings(inDiff)
+				sort.Strings(outDiff)
+				content += fmt.Sprintf("--- proved domain (Argot.C06Real.inProvedDomain on the dumped real graph) ---\nsources that differ INSIDE the domain (taint_deterministic_of_flags applies: impossible for a traversal of the modelled visitor): %v\nsources that differ outside the domain (order dependence of the F14 / C01a shape is possible there): %v\n", inDiff, outDiff)
+				if len(inDiff) > 0 {
+					fkey = "nondet-proved-domain/" + key
+					what = fmt.Sprintf(" — source %s is inside the proved domain (taint_deterministic_of_flags)", inDiff[0])
+				} else if len(outDiff) > 0 {
+					what = fmt.Sprintf(" — every differing source (%s, …) is outside the proved domain: Prev-dependent successors (F14 shape)", outDiff[0])
+				}
+			}
 			if j.kind == "backtrace" && strings.HasPrefix(j.spec, "dir:") {
 				// shape of the recorded findings C06a/C06b: the runs agree on every origin in a source function
 				same := true
@@ -449,7 +651,7 @@ func main() {
 					fkey = "nondet-backtrace/non-source-origins"
 				}
 			}
-			rep.Fail(fkey, fmt.Sprintf("%s of %s gives %d different results on identical inputs: %s", j.kind, j.name, len(canon), strings.SplitN(diffCanon(a, b), "\n", 2)[0]), []byte(content), false)
+			rep.Fail(fkey, fmt.Sprintf("%s of %s gives %d different results on identical inputs: %s", j.kind, j.name, len(canon), strings.SplitN(diffCanon(a, b), "\n", 2)[0])+what, []byte(content), false)
 		} else if len(rep.Samples) < 6 {
 			for h, c := range canon {
 				rep.Sample(map[string]any{"program": j.name, "analysis": j.kind, "runs_in_process": rIn, "canon_sha1": h, "canon_bytes": len(c)})
@@ -561,6 +763,9 @@ func main() {
 		rep.Count("tie-family")
 		check(job{"taint", "dir:" + d, tp.name}, tieR, false)
 	}
+	rep.Extra["sources_in_proved_domain"] = sourcesIn
+	rep.Extra["sources_outside"] = sourcesOut
+	rep.Extra["proved_domain_rule"] = "per source position of every generated / corpus / tie-family taint program: oracle_c01 (c06run) evaluates Argot.C06Real.inProvedDomain (term ∧ entryBeforeExit ∧ keyDetOn) on the dumped REAL linked graph for each of its entry points; inside the domain a run-to-run difference of that source is a violation keyed nondet-proved-domain/…"
 	rep.Extra["in_process_runs_per_program"] = R
 	rep.Extra["cross_process_runs_per_cpu_set"] = crossR
 	rep.Extra["cpu_sets"] = fmt.Sprint(cpuSets)
